@@ -171,10 +171,6 @@ OTHER_FAMILY = ('KeyError', 'ValueError', 'TypeError', 'MemoryError', 'RuntimeEr
                 'PydlutilsException', 'Pydlspec2dException', 'PhotoopException')
 
 
-class Diverged(Exception):
-    """The injected run's event k does not have the recorded identity."""
-
-
 class Monitor(object):
     def __init__(self, touched, fault=None, keep_events=True):
         self.touched = tuple(touched)
@@ -308,7 +304,7 @@ class Monitor(object):
         if op is not None:
             fr = sys._getframe(1)
             key = fr.f_locals.get('key')
-            if True:
+            if True:     # every variable, not only the designated ones
                 anc = []
                 stack = []
                 # Is an exception in flight, and in which pydl frame is it being handled?
@@ -400,18 +396,6 @@ def run_monitored(fn, touched, fault=None, keep_events=True):
         mon.register_callback(TOOL, EV.INSTRUCTION, None)
         mon.register_callback(TOOL, EV.RAISE, None)
     return m, outcome, before, after
-
-
-def run_plain(fn):
-    """Run fn() without monitoring (used for fault-free history steps)."""
-    outcome = ('returned', None)
-    before = dict(os.environ)
-    try:
-        fn()
-    except Exception as e:
-        outcome = ('raised', e)
-    after = dict(os.environ)
-    return outcome, before, after
 
 
 def admissibility(m):
